@@ -18,6 +18,7 @@ type Env struct {
 	vars  map[string]TV
 	old   *Env
 	loopEntry *Env // values on entry to the loop whose invariant is being translated (at_loop_entry)
+	deref func(ref string) (TV, bool) // content of the object a pointer term denotes, when the engine knows it
 	lets  map[string]*Expr
 	bound map[string]string
 	specs map[string]*SpecFn
@@ -218,8 +219,14 @@ func (env *Env) tr(e *Expr, expect string) TV {
 			// Opt auto-unwrap is not done; report
 			trFail("field .%s on non-struct sort %s", e.Tok, x.S)
 		}
-		for _, f := range info.Fields {
+		for i, f := range info.Fields {
 			if f.Name == e.Tok {
+				// accessor of a constructor term: take the component (keeps pointer identities visible)
+				if strings.HasPrefix(x.T, "("+info.Ctor+" ") {
+					if parts := splitTop(x.T[len(info.Ctor)+2 : len(x.T)-1]); len(parts) == len(info.Fields) {
+						return TV{parts[i], f.Sort}
+					}
+				}
 				return TV{"(" + f.Acc + " " + x.T + ")", f.Sort}
 			}
 		}
@@ -417,6 +424,19 @@ func (env *Env) trCall(e *Expr, expect string) TV {
 		oe.lets = env.lets
 		oe.specs = env.specs
 		return oe.tr(e.Args[0], expect)
+	case "deref":
+		// the object a pointer-valued field or result points to (only where the engine tracks the object)
+		x := env.tr(e.Args[0], "Ref")
+		if env.deref != nil {
+			if v, ok := env.deref(x.T); ok {
+				return v
+			}
+		}
+		if expect != "" {
+			// not tracked on this path (e.g. a nil result on an error return): an unconstrained value, about which nothing can be proved
+			return TV{env.u.Fresh("deref.unknown", expect), expect}
+		}
+		trFail("deref: the object behind %s is not tracked (write the comparison with deref(...) on the right-hand side)", x.T)
 	case "at_loop_entry":
 		if env.loopEntry == nil {
 			trFail("at_loop_entry() is only available in loop invariants")
